@@ -5,7 +5,8 @@
 // Every random choice goes through rapid draws on the *rapid.T handed in.  Key material is built
 // from drawn bytes wherever the Tink constructors allow it; the two exceptions are
 //
-//   - RSA: a fixed pool (testdata/rsa_pool.json: 4 x 2048, 3 x 3072, 2 x 4096 bit, e = 65537), an
+//   - RSA: a fixed pool (testdata/rsa_pool.json: 2048, 3072, 4096 bit, five keys with primes of
+//     different byte lengths, four keys of 2049 / 2050 / 2055 bits; e = 65537), an
 //     index is drawn;
 //   - SLH-DSA: tink only accepts the full private key (SK.seed || SK.prf || PK.seed || PK.root) and
 //     has no exported key generation from seeds, so the internal KeyGen() is called; it reads
